@@ -161,6 +161,9 @@ def check_table_pair(ck, repo, cls_name, save_name, load_name, series_fields, sc
                 continue
             col, path, shape = r.slot, r.path, r.shape
             read_cols.add(col)
+            if r.row is not None:
+                ck.ob("W5", ld.qualname, "a value stored once per table (%s) is read from the first row, the only one every table has" % col, where_r,
+                      r.row == "0", "a table with a single row (a one-point curve, a one-step model) has no row %s" % r.row, found="row %s" % r.row)
             ck.ob("W1", ld.qualname, "column %s read by the loader is written by save" % col, where_r, col in w,
                   "the loader reads a column that save never writes")
             if col not in w or w[col] is None:
@@ -541,7 +544,16 @@ def check_side_file_loading(ck, ld, results):
         ck.ob("W4", ld.qualname, "permeance_fits = (file pervaporation_function_0*, file pervaporation_function_1*) loaded with the %s variant [%s]"
               % ("JSON" if safe else "binary", label), ld.loc(), okk, found=found[:400])
         ic = v.fields.get("initial_conditions")
+        file_there = None
+        for c, d in o.trace:
+            if "initial_conditions.ic" in full_text(c) and "exists" in full_text(c):
+                neg = False
+                while isinstance(c, tuple) and c and c[0] == "not":
+                    c, neg = c[1], not neg
+                file_there = (d != neg)
         if ic is None or ic is NONE or isinstance(ic, NoneV):
+            ck.ob("W4", ld.qualname, "stored initial conditions are loaded whenever their file exists [%s]" % label, ld.loc(), file_there is not True,
+                  "initial_conditions.ic is there on this path, yet the loaded model has no initial conditions")
             continue   # the path on which no conditions file exists
         k = value_text(ic)
         if safe:
